@@ -174,7 +174,11 @@ def check (params lines : List String) : CaseResult := Id.run do
   let listening := (h.evs.filter (fun (p, w) => p == 0 && w.take 2 == ["obs", "listening"])).length
   let req := h.requests [1, 2]
   let competing := h.deliveries [1]
-  let outcome := h.outcome k
+  -- gateway inside an embedded sub-process (5th parameter 1): the termination trace of a withdrawn inner flow is not relayed
+  -- to the instance's tracer; once the instance has completed every inner flow has ended (the sub-process waits for its own
+  -- wait group), so an alternative with no trace of its own was withdrawn
+  let inSub := params.getD 4 "0" == "1"
+  let outcome := if inSub && complete then (h.outcome k).map (fun x => if x == 0 then 6 else x) else h.outcome k
   for (_, w) in h.evs do
     match w with
     | ["obs", "noquiesce"] => r := { r with specs := "ebg_does_not_quiesce: the engine keeps running without input" :: r.specs }
